@@ -1033,6 +1033,14 @@ fn merge_patch<'a>(it: &mut Interp<'a>, target: &Val<'a>, patch: &Val<'a>) -> R<
 }
 
 fn prune<'a>(it: &mut Interp<'a>, v: &Val<'a>) -> R<Val<'a>> {
+	it.depth += 1;
+	if it.depth > it.max_depth {
+		it.depth -= 1;
+		return err("budget", "reference prune depth exceeded");
+	}
+	let r = prune_inner(it, v);
+	it.depth -= 1;
+	return r;
 	fn is_content<'a>(it: &mut Interp<'a>, v: &Val<'a>) -> R<bool> {
 		Ok(match v {
 			Val::Null => false,
@@ -1044,6 +1052,7 @@ fn prune<'a>(it: &mut Interp<'a>, v: &Val<'a>) -> R<Val<'a>> {
 			_ => true,
 		})
 	}
+	fn prune_inner<'a>(it: &mut Interp<'a>, v: &Val<'a>) -> R<Val<'a>> {
 	match v {
 		Val::Arr(a) => {
 			let mut out = Vec::new();
@@ -1068,5 +1077,6 @@ fn prune<'a>(it: &mut Interp<'a>, v: &Val<'a>) -> R<Val<'a>> {
 			Ok(record_owned(out))
 		}
 		other => Ok(other.clone()),
+	}
 	}
 }
